@@ -11,7 +11,7 @@ from whoosh import query as wq
 
 from wv.corpus import to_date
 
-TEXT_FIELDS = ("t", "w", "s")
+TEXT_FIELDS = ("t", "w", "s", "fb")
 
 
 # ---------------------------------------------------------------- edit distances (reference)
